@@ -300,7 +300,10 @@ func compareReaders(what, p string, base int64, file []byte, v2 bool, rrecs []RR
 				if i != len(rrecs) {
 					cfail("codec", "%s: reader (mem=%v, v2=%v) stopped after %d records (%v), the reference parser finds %d valid records", what, mem, v2, i, err, len(rrecs))
 				}
-				if isEOF != clean {
+				// A tail shorter than one record header reads as end of file at the reader level (Check and
+				// Recover detect it by comparing the position with the file size: that is C07's business).
+				shortTail := !clean && int64(len(file))-pos < 28
+				if isEOF != clean && !(isEOF && shortTail) {
 					cfail("codec", "%s: reader (mem=%v, v2=%v) ended with %v after %d records; reference parser says clean end=%v (file len %d)", what, mem, v2, err, i, clean, len(file))
 				}
 				if !isEOF && !errors.Is(err, message.ErrCorrupted) {
